@@ -1769,7 +1769,7 @@ class Engine:
             if owner is None:
                 raise OutOfSubset(f"store to undeclared attribute {ty.cls}.{attr} at L{line}")
             name, m, fty = field_map(s, ty.cls, attr)
-            vz = pack(self.coerce(s, v, fty, attr, line), fty)
+            vz = pack(self.coerce(s, v, fty, attr, line, exc), fty)
             s.heap[name] = z3.Store(m, recv.z, vz)
             self.note_write(name, recv.z)
             return [s]
